@@ -213,7 +213,7 @@ prop("C02", "exploration",
       {"name": "c02-asan", "cmd": "c02", "shards": 12, "tiers": ["thorough"], "run_tier": "quick", "build": "asan", "tag": "asan", "crash_is_violation": True, "timeout": {"thorough": 3000}}],
      {"quick": 800, "thorough": 5000},
      ["kernel-feature arguments are excluded as the statement says", "honest replies that fail are inconclusive, never violations"],
-     required_hist=["success-exact:Send", "success-exact:Invoice", "success-exact:LateLock", "success-exact:SelfSend", "refused:altered", "cancel-after-refused-reply-restores-balance", "late-lock-cli-order:accepted-with-inputs-reserved", "planted-receive-with-the-id-of-the-pending-send:accepted", "cross-account-cancel:other-accounts-send-finalized-with-inputs-reserved", "refused-reply-on-chain-excess:still-cancellable-after-refresh", "hostile-invoice-finalized-id:stored-transaction-intact(refused)"])
+     required_hist=["success-exact:Send", "success-exact:Invoice", "success-exact:LateLock", "success-exact:SelfSend", "refused:altered", "cancel-after-refused-reply-restores-balance", "late-lock-cli-order:accepted-with-inputs-reserved", "planted-receive-with-the-id-of-the-pending-send:accepted", "cross-account-cancel:other-accounts-send-finalized-with-inputs-reserved", "refused-reply-on-chain-excess:still-cancellable-after-refresh", "hostile-invoice-finalized-id:stored-transaction-intact(refused)", "hostile-invoice-payer:accepted:fee-that-meets-the-minimum", "hostile-invoice-payer:refused:fee-below-the-minimum", "success-exact:Invoice(hand-built payer half)"])
 
 prop("C11", "exploration",
      "proof-carrying sends (send, late-locked, self-send; random amounts and change shapes) whose replies are altered field-wise (proof stripped, signature "
